@@ -179,6 +179,7 @@ Proof.
     pose proof (HIIin 0 ltac:(lia)) as (In1 & In2). pose proof (HIIwf 0 ltac:(lia)) as W0. pose proof (HLE 1 ltac:(lia)) as S1.
     apply blockP_intro; try lia; try assumption; try (apply fk_ireg; exact Hfk).
     - apply (fk_ireg 0 fk Hfk).
+    - cbn [mono]. lia.
     - constructor; [|constructor]. replace (0 + 1) with 1 by lia. repeat split; try lia. right. exists 0. repeat split; lia.
     - replace (0 + 1) with 1 by lia. lia. }
   (* terminal exon misalignment, right *)
@@ -218,4 +219,76 @@ Proof.
     destruct (II_mono ia k ltac:(lia) ltac:(lia)) as (M1 & _). destruct (II_mono k ib ltac:(lia) ltac:(lia)) as (_ & M2).
     repeat split; try lia. right. exists k. repeat split; lia.
 Qed.
+
+(* ---------------------------------------------------------------- the run of the loop *)
+Fixpoint chainP (i:Z) (bs:list block) : Prop :=
+  match bs with [] => i = n | b :: t => blockP i b /\ chainP (b_next b) t end.
+
+Lemma loop_ok : forall fuel i, 0 <= i <= n -> n - i <= Z.of_nat fuel ->
+  exists bs, loop fl d (L 0, E n) R CI ireg II emap fuel i = Ok bs /\ chainP i bs.
+Proof. induction fuel as [|f IH]; intros i Hi Hf; cbn [loop]; unfold n_introns; change (Z.of_nat (length CI)) with (lenz CI); rewrite HCIlen.
+  - destruct (i <? n) eqn:C; [lia|]. exists []. split; [reflexivity|]. cbn. lia.
+  - destruct (i <? n) eqn:C; [|exists []; split; [reflexivity|cbn; lia]].
+    destruct (step_ok i ltac:(lia)) as (b & -> & Hb). pose proof Hb as (_ & Hnx & _).
+    destruct (IH (b_next b) ltac:(lia) ltac:(lia)) as (bs & -> & Hbs). exists (b :: bs). split; [reflexivity|]. cbn [chainP]. tauto. Qed.
+
+Lemma chain_block_ok : forall bs i, chainP i bs -> forallb (block_ok n) bs = true.
+Proof. induction bs as [|b t IH]; intros i H; [reflexivity|]. cbn [chainP] in H. destruct H as (Hb & Ht). cbn [forallb].
+  rewrite (IH _ Ht). destruct Hb as (Hi & Hnx & _). unfold block_ok. lia. Qed.
+
+Lemma chain_range : forall bs i, 0 <= i -> chainP i bs -> i <= n.
+Proof. intros [|b t] i Hi H; cbn [chainP] in H; [lia|]. destruct H as ((_ & Hnx & _) & _). lia. Qed.
+
+Lemma chain_mono : forall bs i, 0 <= i -> chainP i bs ->
+  mono (emitted bs) /\ (0 < i -> Forall (fun x => L i < fst x) (emitted bs)).
+Proof. induction bs as [|b t IH]; intros i Hi H; [split; [exact I|constructor]|]. cbn [chainP] in H. destruct H as (Hb & Ht).
+  destruct Hb as (_ & Hnx & Hm & Hf & Hu). destruct (IH (b_next b) ltac:(lia) Ht) as (I1 & I2). specialize (I2 ltac:(lia)).
+  unfold emitted in *. cbn [flat_map]. rewrite Forall_forall in Hf, I2. split.
+  - apply mono_app; [exact Hm|exact I1|]. intros x y Hx Hy. specialize (Hf x Hx). specialize (I2 y Hy). lia.
+  - intros Hpos. apply Forall_app. split; apply Forall_forall.
+    + intros x Hx. specialize (Hf x Hx). unfold lo_of in Hf. destruct (b_upd b); try lia.
+    + intros y Hy. specialize (I2 y Hy). destruct (LE_mono i (b_next b) ltac:(lia) ltac:(lia)). lia. Qed.
+
+Lemma chain_end_nil : forall t, chainP n t -> t = [].
+Proof. intros [|b t] H; [reflexivity|]. cbn [chainP] in H. destruct H as ((_ & Hnx & _) & _). lia. Qed.
+
+Lemma chain_final_pos : forall bs i s, 0 < i -> chainP i bs -> s <= L i ->
+  fst (final_region (s, E n) bs) = s /\ E i <= snd (final_region (s, E n) bs) /\
+  Forall (fun x => fst (final_region (s, E n) bs) < fst x /\ snd x < snd (final_region (s, E n) bs)) (emitted bs).
+Proof. induction bs as [|b t IH]; intros i s Hi H Hs.
+  - cbn [chainP] in H. subst i. unfold final_region. cbn [fold_left fst snd]. repeat split; try lia. constructor.
+  - cbn [chainP] in H. destruct H as (Hb & Ht). destruct Hb as (_ & Hnx & _ & Hf & Hu).
+    destruct (LE_mono i (b_next b) ltac:(lia) ltac:(lia)) as (M1 & M2).
+    unfold final_region, emitted in *. cbn [fold_left flat_map]. unfold lo_of, hi_of in Hf. rewrite Forall_forall in Hf.
+    destruct (b_upd b) as [|w|w] eqn:U; cbn [apply_upd fst snd].
+    + destruct (IH (b_next b) s ltac:(lia) Ht ltac:(lia)) as (I1 & I2 & I3). split; [exact I1|]. split; [lia|].
+      apply Forall_app. split; [|exact I3]. apply Forall_forall. intros x Hx. specialize (Hf x Hx). rewrite I1. lia.
+    + lia.
+    + destruct Hu as (Hn' & Hw). rewrite Hn' in Ht. apply chain_end_nil in Ht. subst t. cbn [fold_left flat_map fst snd].
+      rewrite app_nil_r. repeat split; try lia. apply Forall_forall. intros x Hx. specialize (Hf x Hx). lia. Qed.
+
+Lemma chain_final_0 bs : chainP 0 bs ->
+  fst (final_region (L 0, E n) bs) <= snd (final_region (L 0, E n) bs) /\
+  Forall (fun x => fst (final_region (L 0, E n) bs) < fst x /\ snd x < snd (final_region (L 0, E n) bs)) (emitted bs).
+Proof. destruct bs as [|b t]; cbn [chainP]; [lia|]. intros (Hb & Ht). destruct Hb as (_ & Hnx & _ & Hf & Hu).
+  destruct (LE_mono 0 (b_next b) ltac:(lia) ltac:(lia)) as (M1 & M2). pose proof (HLE (b_next b) ltac:(lia)) as S1. pose proof (HLE 0 ltac:(lia)) as S0.
+  unfold final_region, emitted in *. cbn [fold_left flat_map]. unfold lo_of, hi_of in Hf. rewrite Forall_forall in Hf.
+  destruct (b_upd b) as [|w|w] eqn:U; cbn [apply_upd fst snd].
+  - destruct (chain_final_pos t (b_next b) (L 0) ltac:(lia) Ht ltac:(lia)) as (I1 & I2 & I3). unfold final_region, emitted in *.
+    split; [lia|]. apply Forall_app. split; [|exact I3]. apply Forall_forall. intros x Hx. specialize (Hf x Hx). rewrite I1. lia.
+  - destruct Hu as (_ & Hw). destruct (chain_final_pos t (b_next b) w ltac:(lia) Ht ltac:(lia)) as (I1 & I2 & I3). unfold final_region, emitted in *.
+    split; [lia|]. apply Forall_app. split; [|exact I3]. apply Forall_forall. intros x Hx. specialize (Hf x Hx). rewrite I1. lia.
+  - destruct Hu as (Hn' & Hw). rewrite Hn' in Ht. apply chain_end_nil in Ht. subst t. cbn [fold_left flat_map fst snd].
+    rewrite app_nil_r. split; [lia|]. apply Forall_forall. intros x Hx. specialize (Hf x Hx). lia. Qed.
+
+Theorem loop_events_wf : exists bs, blocks fl d (L 0, E n) R CI ireg II emap = Ok bs /\
+  forallb (block_ok n) bs = true /\ mono_b (emitted bs) = true /\
+  (fst (final_region (L 0, E n) bs) <=? snd (final_region (L 0, E n) bs)) = true /\
+  forallb (inside (final_region (L 0, E n) bs)) (emitted bs) = true.
+Proof. unfold blocks. destruct (loop_ok (2 * length CI + 2) 0 ltac:(lia)) as (bs & Hl & Hc).
+  { unfold lenz in HCIlen. lia. }
+  exists bs. split; [exact Hl|]. split; [eapply chain_block_ok; exact Hc|].
+  destruct (chain_mono bs 0 ltac:(lia) Hc) as (Hm & _). destruct (chain_final_0 bs Hc) as (F1 & F2).
+  split; [apply mono_b_spec; exact Hm|]. split; [lia|]. apply forallb_forall. rewrite Forall_forall in F2. intros x Hx.
+  specialize (F2 x Hx). unfold inside. lia. Qed.
 End Loop.
